@@ -181,7 +181,11 @@ ValsRT(n) == {v \in {Str(s) : s \in SeqsUpTo(n)} : Promised1(<<Str(<<"a">>), v>>
 Keys1 == {Str(<<PrCh[i]>>) : i \in 1..Len(PrCh)}
 Entries1 == {<<k, v>> : k \in Keys1, v \in ValsRT(1)}
 
-KM == {Str(<<"a">>), Str(<<"sp">>), Str(<<"eq", "cm">>), Str(<<"sc">>), Str(<<"pc", "pl">>), Str(<<"op", "a">>)}
+\* keys of the history menu: every class, and keys RELATED to each other - "a" is a proper prefix of "ab" and "aa",
+\* which have the same length and differ in the last character (and, for the concretisations where b is a in
+\* the other case, are equal up to case)
+KM == {Str(<<"a">>), Str(<<"sp">>), Str(<<"eq", "cm">>), Str(<<"sc">>), Str(<<"pc", "pl">>), Str(<<"op", "a">>),
+       Str(<<"a", "b">>), <<Rn("a", 2)>>}
 VM == {<<>>, Str(<<"b">>), Str(<<"sp", "b", "sp">>), Str(<<"eq", "cm", "pc", "pl">>), Str(<<"op">>),
        Str(<<"b", "sc", "a", "eq", "b">>), Str(<<"sc">>), Str(<<"a", "sc", "sp", "op", "sc">>)}
 BadArgs == {<<Str(<<"np">>), Str(<<"b">>)>>, <<<<>>, Str(<<"b">>)>>, <<Str(<<"a">>), Str(<<"b", "np">>)>>,
